@@ -9,8 +9,26 @@ import GrinVerif.Lemmas.PowRoodComplete
 
 All theorems are about the verifier models of `Model/Pow.lean` (transliterations of the five Rust
 `verify` functions) and hold for **every** endpoint function `ep` (every header seed / siphash
-key, every `edge_bits`), every bucket hash `P.bk`, every nonce list — no size bound.
-`IsProofCycle*` (Model/PowSpec.lean) is the declarative "one simple cycle through all edges". -/
+key, every `edge_bits`), every bucket hash `P.bk` (Cuckarood: every one that keeps the lowest
+bit), every nonce list — no size bound.
+`IsProofCycle*` (Model/PowSpec.lean) is the declarative "one simple cycle through all edges".
+
+| variant    | ⇒ (`_sound`) | ⇐ (`_complete`) | ⇔ (`_iff`) | terminates |
+|------------|--------------|-----------------|------------|------------|
+| Cuckaroom  | ✓            | ✓               | ✓          | ✓          |
+| Cuckaroo   | ✓            | ✓               | ✓          | ✓          |
+| Cuckarooz  | ✓ (ctx size = proof size) | ✓  | ✓          | ✓          |
+| Cuckatoo   | ✓            | ✓               | ✓          | ✓          |
+| Cuckarood  | ✓ (bk keeps bit 0) | ✓         | ✓          | ✓ (since repair df0049399) |
+
+Proof structure (Lemmas/Pow*.lean): the first loop in closed form (`lastBelow`: bucket lists are
+"largest earlier slot with the same key"); the inner search returns *the unique* matching slot of
+the list or errs (`uFind_ok`, `chainFind`, `roomFind_ok`); an accepted walk is a `Trace`, which is
+duplicate-free by determinism alone; partner is an involution ⇒ no edge is retraced ⇒ the `L` entry
+slots lie on `L` different edges (`ucyc_cycle`); conversely a cycle yields the partner structure
+(`gcyc_partner`), the xor test passes by pairing slots (`xorAll_pairs`), and the walk follows the
+cycle forwards or backwards (`gcyc_trace`). Cuckarood is reduced to the same engine through its
+per-direction slot numbering (`slotOf`, `sigR`). -/
 namespace GV.Props.C05
 open GV GV.Pow
 
@@ -409,13 +427,72 @@ theorem verifyCuckarood_iff (P : Params) (ep : Nat → Nat × Nat) (ns : List Na
   ⟨verifyCuckarood_sound P ep ns hbk,
    fun ⟨h1, h2, h3, h4⟩ => verifyCuckarood_complete P ep ns hbk hps h1 h2 h3 h4⟩
 
+/-! ## The specification is decidable
+
+`IsProofCycle*` is an existential over orderings of the edges; by the `_iff` theorems it is decided
+by running the verifier model on the bare edge list (nonces `0 … L-1`, `ep n` = the `n`-th edge). -/
+
+theorem map_range_getD_self {α : Type} (d : α) : ∀ l : List α,
+    (List.range l.length).map (fun k => l.getD k d) = l := by
+  intro l
+  induction l with
+  | nil => rfl
+  | cons x l ih =>
+    rw [List.length_cons, List.range_succ_eq_map, List.map_cons, List.map_map]
+    simp only [List.getD_cons_zero]
+    congr 1
+
+theorem range_ascending (L : Nat) : Ascending (List.range L) := by
+  unfold Ascending
+  rw [List.pairwise_iff_getElem]
+  intro a b ha hb hab
+  simpa using hab
+
+theorem isProofCycleCuckaroom_iff_verifier (es : List (Nat × Nat)) (hL : 0 < es.length) :
+    IsProofCycleCuckaroom es ↔
+      verifyCuckaroom ⟨es.length, es.length, es.length, id⟩ (fun n => es.getD n (0, 0))
+        (List.range es.length) = .ok () := by
+  have hm : (List.range es.length).map (fun n => es.getD n (0, 0)) = es := map_range_getD_self (0, 0) es
+  rw [verifyCuckaroom_iff _ _ _ hL, hm]
+  exact ⟨fun h => ⟨by simp, range_ascending _,
+    fun x hx => by have := List.mem_range.mp hx; show x ≤ es.length; omega, h⟩, fun h => h.2.2.2⟩
+
+theorem isProofCycleCuckaroo_iff_verifier (es : List (Nat × Nat)) (hL : 0 < es.length) :
+    IsProofCycleCuckaroo es ↔
+      verifyCuckaroo ⟨es.length, es.length, es.length, id⟩ (fun n => es.getD n (0, 0))
+        (List.range es.length) = .ok () := by
+  have hm : (List.range es.length).map (fun n => es.getD n (0, 0)) = es := map_range_getD_self (0, 0) es
+  rw [verifyCuckaroo_iff _ _ _ hL, hm]
+  exact ⟨fun h => ⟨by simp, range_ascending _,
+    fun x hx => by have := List.mem_range.mp hx; show x ≤ es.length; omega, h⟩, fun h => h.2.2.2⟩
+
+theorem isProofCycleCuckarooz_iff_verifier (es : List (Nat × Nat)) (hL : 0 < es.length) :
+    IsProofCycleCuckarooz es ↔
+      verifyCuckarooz ⟨es.length, es.length, es.length, id⟩ (fun n => es.getD n (0, 0))
+        (List.range es.length) = .ok () := by
+  have hm : (List.range es.length).map (fun n => es.getD n (0, 0)) = es := map_range_getD_self (0, 0) es
+  rw [verifyCuckarooz_iff _ _ _ hL rfl, hm]
+  exact ⟨fun h => ⟨by simp, range_ascending _,
+    fun x hx => by have := List.mem_range.mp hx; show x ≤ es.length; omega, h⟩, fun h => h.2.2.2⟩
+
+theorem isProofCycleCuckatoo_iff_verifier (es : List (Nat × Nat)) (hL : 0 < es.length) :
+    IsProofCycleCuckatoo es ↔
+      verifyCuckatoo ⟨es.length, es.length, es.length, id⟩ (fun n => es.getD n (0, 0))
+        (List.range es.length) = .ok () := by
+  have hm : (List.range es.length).map (fun n => es.getD n (0, 0)) = es := map_range_getD_self (0, 0) es
+  rw [verifyCuckatoo_iff _ _ _ hL, hm]
+  exact ⟨fun h => ⟨by simp, range_ascending _,
+    fun x hx => by have := List.mem_range.mp hx; show x ≤ es.length; omega, h⟩, fun h => h.2.2.2⟩
+
 /-! ## What is not proved (kept visible)
 
 * The executable oracle `oracleCycle` (Model/PowSpec.lean: degree counting + connectivity closure,
   used by the driver on every line) is not proved equivalent to the declarative `IsProofCycle*`;
   it is tied to it only through the verifiers: on every line of every run the implementation, the
-  proven-equivalent verifier model and the oracle agree. So `IsProofCycle*` is decidable *via the
-  verifier* (`verify*_iff` gives a decision procedure), not via the oracle.
+  proven-equivalent verifier model and the oracle agree. `IsProofCycle*` is decidable via the
+  verifier (`isProofCycle*_iff_verifier`), not via the oracle. (For Cuckarood the corresponding
+  corollary is not stated: its edge list carries direction bits that must agree with the nonce
+  parities, so the bare-edge-list trick needs nonces of prescribed parity.)
 * `Proof` packing (`pack_bits` / `read_number`, padding check) and the difficulty function are
   modelled bit for bit (Model/PowPack.lean) and compared on every edge_bits 1..63, but the
   round-trip `readNumber (packNonces w ns) (i*w) w = ns[i]` is not a theorem here (DESIGN A.4 puts
